@@ -36,7 +36,7 @@ try:
             print(os.path.basename(d), "PATCH DOES NOT APPLY", r.stderr[:200]); continue
         for p in props:
             t0 = time.time()
-            env = dict(os.environ, VERIF_MAX_S="120", VMSIM_HANG_S="60")
+            env = dict(os.environ, VERIF_MAX_S="120", VMSIM_HANG_S="60", VERIF_SHRINK_S="3")
             try:
                 r = subprocess.run([f"{snap}/check", p, "quick"], capture_output=True, text=True, env=env, timeout=1500)
                 classes = sorted(set(re.findall(r"^\s+(C\d+/\S+)", r.stderr, re.M)))
